@@ -62,6 +62,21 @@ class Unknown:
         return f"Unknown({self.tag})"
 
 
+_CONSUMERS = ("min", "max", "sum", "list", "tuple", "set", "frozenset", "sorted", "any", "all", "zip", "enumerate", "dict", "reversed", "map", "filter")
+
+
+class GenV(list):
+    """the items of a generator expression; `spent` once something has iterated over it"""
+
+    spent = False
+
+    def take(self):
+        if self.spent:
+            return []
+        self.spent = True
+        return list(self)
+
+
 class RepeatV:
     """itertools.repeat(x): x over and over"""
 
@@ -897,6 +912,8 @@ class Interp:
         return v
 
     def iterate(self, it, node):
+        if isinstance(it, GenV):
+            return it.take()
         if isinstance(it, (list, tuple, set, frozenset)):
             return list(it)
         if isinstance(it, dict):
@@ -1225,7 +1242,10 @@ class Interp:
         return r
 
     def ev_GeneratorExp(self, e):
-        return self._comp(e, lambda sub: sub.eval(e.elt))
+        r = self._comp(e, lambda sub: sub.eval(e.elt))
+        # a generator can be walked once: whoever consumes it second finds it empty (GenV keeps the items and
+        # whether they were handed out)
+        return GenV(r) if type(r) is list else r
 
     def ev_SetComp(self, e):
         r = self._comp(e, lambda sub: sub.eval(e.elt))
@@ -1439,6 +1459,8 @@ class Interp:
             if fv.name.startswith("super."):
                 return None  # method of an external base class (object.__init__ ...)
             if fv.name.startswith("builtin:"):
+                if any(isinstance(a, GenV) for a in args) and fv.name[8:] in _CONSUMERS:
+                    args = [a.take() if isinstance(a, GenV) else a for a in args]
                 return self.call_builtin(fv.name[8:], args, kwargs, node)
             nm = fv.name[4:] if fv.name.startswith("ext:") else fv.name
             if nm.endswith(".isEnabledFor"):
@@ -1695,6 +1717,8 @@ class Interp:
         return None
 
     def call_builtin(self, name, args, kwargs, node):
+        if any(isinstance(a, GenV) for a in args) and name in _CONSUMERS:
+            args = [a.take() if isinstance(a, GenV) else a for a in args]
         conc = all(is_concrete(a) and not _has_sym(a) for a in args)
         try:
             if name in ("str", "repr") and len(args) == 1 and not kwargs and isinstance(args[0], (EnumSym, Obj)):
@@ -1803,6 +1827,10 @@ class Interp:
                 items = list(args[0]) if len(args) == 1 and isinstance(args[0], (list, tuple, set)) else list(args)
                 if all(isinstance(x, (int, float, Fraction)) for x in items) and items:
                     return (max if name == "max" else min)(items)
+                if not items and len(args) == 1 and isinstance(args[0], (list, tuple, set)):
+                    if "default" in kwargs:
+                        return kwargs["default"]  # nothing to compare: the default
+                    raise RaiseSignal("ValueError", node, payload=f"{name}() arg is an empty sequence")
             if name in ("any", "all") and isinstance(args[0], (list, tuple)):
                 vals = [self.truth(x, node) for x in args[0]]
                 return any(vals) if name == "any" else all(vals)
